@@ -151,7 +151,7 @@ def map_exc(e):
 
 class P(Prop):
     id = "C13"
-    quick_cases = 2000
+    quick_cases = 1500
     thorough_cases = 300000
     chunk = 100
     rule = (
